@@ -118,7 +118,7 @@ fn check(e: &Expression, case: &str, rep: &mut Report, by_construction: bool) {
     }
     let with_action = has_action(e);
     rep.count(if with_action { "trees_with_action" } else { "trees_without_action" });
-    match validate(e, &opts_default(), &mut |_| records()) {
+    match validate(e, &crate::sut::opts_for(crate::rng::hash_str(case)), &mut |_| records()) {
         Tv::Agree { run, .. } => {
             if !with_action {
                 rep.add("implicit_prints_observed", run.outcomes.iter().filter(|o| !o.outs.is_empty()).count() as u64);
